@@ -6,7 +6,7 @@ N = 0xFFFFFFFFFFFFFFFFFFFFFFFFFFFFFFFEBAAEDCE6AF48A03BBFD25E8CD0364141
 NEEDS_CLI = True
 RULE = ("ops sig.print / sig.parse: random and boundary scalars (1, 2, n-2, n-1 valid; 0, n, n+1, 2^256-1 invalid), both parities, "
         "printed text re-parsed with and without 0x, every length 0..140, mutation of each character class, upper/lower case, v bytes 0..255; "
-        "a random sample of the cases is re-run through every sub-command that reaches the same code (vlib/routes.py); non-trivial = distinct text of length 128..134; judge = the statement's grammar (130 hex digits r‖s‖v, v in {27,28}, scalars in [1,n-1])")
+        "well-formed texts handed to `hash transaction --signature` for every kind of transaction incl. legacy without chain id (judge: keccak256 of the signed payload with exactly that signature); a random sample of the cases is re-run through every sub-command that reaches the same code (vlib/routes.py); non-trivial = distinct text of length 128..134; judge = the statement's grammar (130 hex digits r‖s‖v, v in {27,28}, scalars in [1,n-1])")
 EXHAUSTIVE_SWEEPS = {"quick": ["all lengths 0..140", "all 256 v bytes", "all 8x8 boundary scalar pairs x 2 parities"],
                      "thorough": ["all lengths 0..140", "all 256 v bytes", "all 8x8 boundary scalar pairs x 2 parities"]}
 BOUND = [0, 1, 2, N - 2, N - 1, N, N + 1, 2 ** 256 - 1]
@@ -67,6 +67,17 @@ def gen(rng, tier):
         add(v, "perturbed")
     for t in ["", "0x", "0X" + good[2:], " " + good, good + " ", good + "\n", "0x0x" + good[2:], "1b", "0x1b"]:
         add(t, "malformed", nt=False)
+    # interoperation: a text of the printed form is accepted by `hash transaction --signature` for every kind of transaction
+    # (the pre-EIP-155 legacy form included) and the hash is keccak256 of the signed payload carrying exactly (r, s, parity)
+    from vlib import txgen
+    NN = txgen.N
+    for kind, chain in (("legacy", "absent"), ("legacy", 1), ("legacy", 2 ** 64 - 1), ("eip2930", None), ("eip1559", None)):
+        for _ in range(6 if tier == "thorough" else 3):
+            j, _e = txgen.rand_tx(rng, kind=kind, chain=chain)
+            r, s_ = rng.randrange(1, NN), rng.randrange(1, NN)
+            for pre in ("0x", ""):
+                for v in (27, 28):
+                    cases.append(Case("cli.hash_tx %s %s" % (hx(j), hx(pre + "%064x%064x%02x" % (r, s_, v))), tags=("interop", "kind:" + kind + ("-unprotected" if chain == "absent" else "")), runner="cli", meta={}))
     from vlib import routes
     cases += routes.add_routes(cases, rng, 80, tier)
     return cases
